@@ -80,7 +80,10 @@ man = {
     ],
     'checks': checks,
     'not_applicable': na,
-    'notes': 'See DESIGN.md. Exit 3 + MACHINERY-ERROR means the check could not run; it is never a verdict.',
+    'notes': ('See DESIGN.md. Exit 3 + MACHINERY-ERROR means the check could not run; it is never a verdict. Known findings: /verif/known_findings.json '
+              '(committed; never written by a check): entries "fixed: property=<id> <commit> <what>" suppress nothing; the one open entry, '
+              'C01-dfs-descriptor-per-level, makes ./check C01 print "KNOWN-FINDING: property=C01 ..." for exactly that case and exit 0. '
+              'FSX_BUDGET_SCALE=<f> stretches the wall budget of a tier on a loaded machine (a tier that hits its budget reports PARTIAL coverage, not a verdict).'),
 }
 with open(os.path.join(HERE, 'MANIFEST.json'), 'w') as f:
     json.dump(man, f, indent=1)
